@@ -634,7 +634,9 @@ impl Gen {
         }
         let mut n = 0usize;
         // one history in four lives next to price 0 (0 is a multiple of every tick size: a legal price)
-        let base = if self.rng.gen_range(0..4) == 0 { 0u32 } else { 20u32 };
+        // ... one near the top of the price range (limit prices stay strictly below 2^32 - 1), one in the middle of it
+        let base = match self.rng.gen_range(0..12) { 0 | 1 | 2 => 0u32, 3 => (u32::MAX - 1) / tick - 8, 4 => (1u32 << 31) / tick, _ => 20u32 };
+        let mut big_left = 2u32;      // at most two very large volumes per history: per-side resting volume and traded volume stay below 2^32
         let mut last_q: Option<(usize, u32)> = None;      // (id, price) of the order queued by the previous operation
         let mut created = 0usize;                          // exact number of orders that exist (what fix_ids computes), so that `last_q` names the right order
         for _ in 0..len {
@@ -655,7 +657,11 @@ impl Gen {
             let r = self.rng.gen_range(0..100);
             let side = if self.rng.gen_bool(0.5) { MSide::Bid } else { MSide::Ask };
             let price = (base + self.rng.gen_range(0..6)) * tick;
-            let vol = self.rng.gen_range(1..8);
+            let mut vol = self.rng.gen_range(1..8);
+            if big_left > 0 && self.rng.gen_range(0..60) == 0 {
+                big_left -= 1;
+                vol = (1u32 << 30) + self.rng.gen_range(0..5);
+            }
             let op = if r < 40 || n == 0 {
                 n += 1;
                 let lim = self.rng.gen_bool(0.8);
@@ -696,7 +702,9 @@ impl Gen {
             ops.push(op);
         }
         // tick > 1 makes price+1 off-grid; with tick 1 it is on the grid and the create simply succeeds
-        History { tick, levels, trading: true, t0: 0, ops: fix_ids(ops, tick), note: String::new() }
+        // most histories start trading-enabled at time 0; some start disabled, some with the clock already running
+        let trading = self.rng.gen_range(0..8) != 0;
+        History { tick, levels, trading, t0: 0, ops: fix_ids(ops, tick), note: String::new() }
     }
 }
 
